@@ -634,6 +634,13 @@ class Executor:
                 v = self._operand(fn, frame, parse_operand(opnd), st, subst)
                 ok = simplify_bool(neg(v.term) if negated else v.term)
                 bad = simplify_bool(neg(ok))
+                if msg.startswith('"index out of bounds') and getattr(self, "assume_index_in_bounds", False):
+                    # precondition of the slice: positions the code computes from its own cursor are inside the buffer
+                    if ok not in st.pc and ok != "true":
+                        st.pc.append(ok)
+                    bb = tgt
+                    steps += 1
+                    continue
                 if ok != "true" and ok not in st.pc and bad != "false" and bad not in [simplify_bool(neg(c)) for c in st.pc]:
                     sb = st.fork()
                     sb.pc.append(bad)
@@ -826,6 +833,17 @@ class Executor:
                 v = self._downcast(v, pr[1])
             elif pr[0] == "constindex":
                 v = v.items[pr[1]] if isinstance(v, Tup) else self._unsup(f"const index on {v!r}")
+            elif pr[0] == "index" and isinstance(v, Sym):
+                idx = self.deref(loc.get(pr[1]), st)
+                key = ("elem", idx.term if isinstance(idx, Scalar) else repr(idx))
+                if key not in v._children:
+                    et = re.sub(r"^&\s*('\w+\s+)?(mut\s+)?", "", v.ty_text.strip())
+                    em = re.match(r"^\[(.*?)(?:; \d+)?\]$", et) or re.match(r"^(?:std::vec::)?Vec<(.*)>$", et)
+                    if not em:
+                        raise Unsupported(f"indexing into {v!r} of type {v.ty_text}")
+                    self.sym_counter += 1
+                    v._children[key] = self.sym_value(em.group(1), f"{v.name}.at{self.sym_counter}", v.tdef.modpath if v.tdef else None)
+                v = v._children[key]
             else:
                 raise Unsupported(f"projection {pr}")
         return v
@@ -977,6 +995,18 @@ class Executor:
         if m and m.group(1) in BINOPS:
             a, b = [self.deref(self._operand(fn, frame, parse_operand(x), st, subst), st) for x in split_top(m.group(2))]
             return self._binop(fn, m.group(1), a, b)
+        if m and m.group(1) == "PtrMetadata":
+            # length of a slice we do not model: an arbitrary non-negative value, the same for the same slice
+            a = self.deref(self._operand(fn, frame, parse_operand(m.group(2)), st, subst), st)
+            key = ("len", id(a) if not isinstance(a, Sym) else a.name)
+            if not hasattr(self, "slice_lens"):
+                self.slice_lens = {}
+            if key not in self.slice_lens:
+                self.sym_counter += 1
+                v = e.int_var(f"len{self.sym_counter}")
+                e.side.append(e.icmp("Ge", v.term, e.int_const(0)))
+                self.slice_lens[key] = v
+            return self.slice_lens[key]
         if m and m.group(1) in UNOPS:
             a = self.deref(self._operand(fn, frame, parse_operand(m.group(2)), st, subst), st)
             if m.group(1) == "Not" and a.sort == "bool":
@@ -990,7 +1020,7 @@ class Executor:
         if m and m.group(1) == "discriminant":
             return self._discriminant(self.deref(self._load(frame, parse_place(m.group(2)), st), st))
         if rhs.startswith("&"):
-            r = re.sub(r"^&(raw (const|mut) |mut )?", "", rhs)
+            r = re.sub(r"^&(raw (const|mut) (\(fake\) )?|mut |fake shallow |fake )?", "", rhs)
             return self._borrow(frame, parse_place(r), st)
         if rhs.startswith(("copy ", "move ", "const ", "no_retag ")):
             return self._operand(fn, frame, parse_operand(rhs), st, subst)
